@@ -115,12 +115,12 @@ class Wrapper(metaclass=abc.ABCMeta):
         Raises:
             ValueError: If the model outputs are strings.
         """
-        try:
-            return {self.default_label: float(y_prediction)}
-        except TypeError:  # y_prediction is not a size-1 array or real_valued number
-            y_prediction = y_prediction.flatten()
-            y_prediction = {i: y_prediction[i] for i in range(y_prediction.shape[0])}
-        except ValueError as e:  # y_prediction is probably a size-1 array containing a string
-            raise ValueError(f"Prediction is probably a string: {y_prediction}. Only numeric values allowed. "
-                             f"Exception is raised: {e}.")
-        return y_prediction
+        y_prediction = np.asarray(y_prediction)
+        if y_prediction.size == 1:  # scalar or size-1 array of any dimension
+            try:
+                return {self.default_label: float(y_prediction.item())}
+            except ValueError as e:  # y_prediction is probably a size-1 array containing a string
+                raise ValueError(f"Prediction is probably a string: {y_prediction}. Only numeric values allowed. "
+                                 f"Exception is raised: {e}.")
+        y_prediction = y_prediction.flatten()
+        return {i: y_prediction[i] for i in range(y_prediction.shape[0])}
